@@ -516,7 +516,7 @@ def compile_link(res, seeds):
         # order by module dependencies
         provides = {n: {x[2] for x in scan(t)[0] if x[0] == 'module'} for n, t in texts.items()}
         needs = {n: {r[3] for r in scan(t)[1] if r[1] == 'use'} for n, t in texts.items()}
-        order, done, pending = [], set(), sorted(texts)
+        order, done, pending = [], set(), sorted(n for n in texts if n != 'zz_main.F90')
         while pending:
             progress = False
             for n in list(pending):
@@ -528,6 +528,7 @@ def compile_link(res, seeds):
             if not progress:
                 order += pending
                 break
+        order.append('zz_main.F90')
         p = subprocess.run(['gfortran', '-cpp', '-I.', '-o', 'a.out'] + order, cwd=d, stdout=subprocess.PIPE,
                            stderr=subprocess.STDOUT, text=True, timeout=120)
         if p.returncode != 0:
@@ -625,3 +626,148 @@ def run_case(req):
             _memo.clear()
         _memo[key] = (run_mode(proj, cfg, ops, plan), (proj, cfg, ops, plan))
     return _memo[key]
+
+
+# ------------------------------------------------------------------ class predicates (Python mirrors of the Lean Bool defs)
+
+def split_layout(proj):
+    files = [u[0] for u in proj['units']]
+    return len(set(files)) == len(files)
+
+
+def covered(proj, ops, plan):
+    """Lean: LokiModel.C25.Covered"""
+    def lower(o):
+        return all(s is None or s == s.lower() for s in o[1:] if not isinstance(s, bool))
+    dep_last = all(o[0] != 'dep' for o in ops[:-1])
+    no_dup_after_rem = all(not (o[0] == 'rem' and any(p[0] == 'dup' for p in ops[i + 1:])) for i, o in enumerate(ops))
+    return (split_layout(proj) and all(lower(o) for o in ops) and not any(o[0] == 'dup' and o[2] for o in ops)
+            and dep_last and (not plan or no_dup_after_rem))
+
+
+def driver_names(cfg):
+    return {n for n, ent in cfg['routines'] if ent.get('role') == 'driver'}
+
+
+def classify(proj, cfg, ops, plan):
+    """the known-finding classes a request falls in (decidable on the request; Lean: Known… in Props/C25.lean)"""
+    home = c22.home_of(proj)
+    drivers = driver_names(cfg)
+    cls = []
+    called = {c for r in proj['routines'] for c in r['calls']}
+    kinds = [o[0] for o in ops]
+    if not split_layout(proj) and any(k in ('dup', 'wrap', 'dep') for k in kinds):
+        cls.append('shared-file')
+    if any(o[0] == 'dup' and (o[3] != o[3].lower() or (o[4] or '') != (o[4] or '').lower()) for o in ops):
+        cls.append('duplicate-suffix-case')
+    mixed = any(home[d] is not None and any(home[r['name']] == home[d] and r['name'] not in drivers
+                                            for r in proj['routines']) for d in drivers)
+    if not plan and (drivers & called or mixed) and any(k in ('wrap', 'dep') for k in kinds):
+        cls.append('driver-callee')
+    kvar = any(m in {home[x['name']] for x in proj['routines']} for r in proj['routines'] for m in r['usev'])
+    if not plan and kvar and 'dep' in kinds:
+        cls.append('retained-module')
+    if not plan and kinds.count('dep') > 1 or ('dep' in kinds[:-1]):
+        cls.append('dep-not-last')
+    free_kernel = any(home[r['name']] is None and r['name'] not in drivers and r['name'] in called
+                      for r in proj['routines'])
+    if not plan and 'wrap' in kinds and free_kernel and not proj['cinc']:
+        cls.append('wrap-without-interface')
+    # routines of a processed module that are not reachable from the seeds (or may become so by a removal)
+    rmap = {r['name']: r for r in proj['routines']}
+    reach, todo = set(), [s.split('#')[1] for s in cfg['seeds']]
+    while todo:
+        x = todo.pop()
+        if x in reach or x not in rmap:
+            continue
+        reach.add(x)
+        todo += rmap[x]['calls']
+    inactive = any(kind == 'mod' and len(rs) > 1 and (any(f'r{i}' not in reach for i in rs) or 'rem' in kinds)
+                   and any(f'r{i}' in reach for i in rs) for _, kind, _, rs in proj['units'])
+    if not plan and inactive and any(k == 'wrap' and 'dep' not in kinds[i + 1:] for i, k in enumerate(kinds)):
+        cls.append('inactive-sibling')
+    for i, o in enumerate(ops):
+        if o[0] == 'dup' and home.get(o[1]) is None and 'wrap' in kinds[i + 1:] and not plan:
+            cls.append('dup-free-then-wrap')
+        if o[0] == 'rem' and home.get(o[1]) is not None and 'dep' in kinds[i + 1:] and not plan:
+            cls.append('removed-import-left')
+        if o[0] == 'dup' and o[2]:
+            cls.append('dup-subgraph')
+        if o[0] == 'rem' and 'dup' in kinds[i + 1:]:
+            cls.append('plan-removal-not-inherited')
+    return list(dict.fromkeys(cls))
+
+
+CLASSES = ['shared-file', 'duplicate-suffix-case', 'driver-callee', 'retained-module', 'dep-not-last',
+           'wrap-without-interface', 'inactive-sibling', 'dup-free-then-wrap', 'removed-import-left', 'dup-subgraph', 'plan-removal-not-inherited']
+
+
+def twin(req, plan):
+    return [x if not (isinstance(x, list) and x and str(x[0]) == 'mode') else [A('mode'), A('plan' if plan else 'seq')]
+            for x in req]
+
+
+def oracle_case(req, link=False):
+    res, (proj, cfg, ops, plan) = run_case(req)
+    if res['exc'] and res['exc'][0] == 'init':
+        return []           # the scheduler cannot be built (cyclic file graph: C21/C22), nothing to check
+    probs = check_run(res, plan, ops, cfg, link=link)
+    if plan and not res['exc'] and all(o[0] in ('dup', 'rem') for o in ops):
+        # planning and conversion must leave the same graph (the operations that have a planning implementation)
+        other, _ = run_case(twin(req, False))
+        if not other['exc'] and other['trace'] and other['trace'][-1]['items'] != res['trace'][-1]['items']:
+            probs.append((f"planning leaves the items {res['trace'][-1]['items']} but the conversion "
+                          f"{other['trace'][-1]['items']}", 'plan-vs-conversion'))
+    cls = classify(proj, cfg, ops, plan)
+    return [Failure(what, cls[0] if cls else None) for what, _ in probs[:3]]
+
+
+class C25(Prop):
+    id = 'C25'
+    title = 'Renaming, duplicating and removing items keeps the graph consistent'
+    model_modules = ['LokiModel.C25.Model']
+    props_module = 'LokiModel.Props.C25'
+    findings_module = 'LokiModel.Findings.C25'
+    driver = 'Drivers/C25.lean'
+    theorems = []
+    design_ref = 'DESIGN.md 4.D C25'
+    level = 'proof'
+    level_text = ''
+    level_note = ''
+    technique = 'Lean 4 theorems about a hand-written model + correspondence with the real code'
+    rule = ''
+    trusted_base = []
+    assumptions = []
+    extra_obligations = []
+    link = False
+
+    def gen(self, rng, tier):
+        nproj = {'quick': 22, 'thorough': 260, 'search': 60}.get(tier, 22)
+        self.link = tier == 'thorough'
+        for _ in range(nproj):
+            proj = gen_project(rng)
+            cfg = gen_config(rng, proj)
+            ops = gen_ops(rng, proj)
+            for plan in (True, False):
+                req = make_request(proj, cfg, ops, plan)
+                sig = '-'.join(o[0] for o in ops)
+                yield Case(req, stream=('plan:' if plan else 'seq:') + ('covered' if covered(proj, ops, plan) else 'uncovered'),
+                           nontrivial=len(ops) >= 1 and not plan, key=dumps(req))
+
+    def impl(self, req):
+        res, (proj, cfg, ops, plan) = run_case(req)
+        if res['exc'] and res['exc'][0] == 'init':
+            return [A('error'), A('init')]
+        if not covered(proj, ops, plan):
+            return [A('uncovered')]
+        return response(res)
+
+    def oracle(self, req):
+        return oracle_case(req, link=self.link)
+
+    def classes(self):
+        return list(CLASSES)
+
+
+PROP = C25()
+READY = True
